@@ -104,6 +104,13 @@ type vSched struct {
 	timers    []*vTimerCtl
 	onSpawn   func(kind string) string
 	emit      func(e, k string, n, m int, err string)
+	onStop    func() // called when Run ends, before the parked actors are released
+	blockedAtEnd []vBlocked
+}
+
+type vBlocked struct {
+	name string
+	gate vGate
 }
 
 var vDebug = os.Getenv("VERIF_DEBUG") != ""
@@ -263,6 +270,15 @@ func (s *vSched) hook(pt int32, obj unsafe.Pointer, a, b int64) {
 	s.park(act, vGate{pt, obj, a, b})
 }
 
+type unsafePointer = unsafe.Pointer
+
+// hookTraceOnly records the trace-only points (no scheduling): used after Run for epilogues
+func (s *vSched) hookTraceOnly(pt int32, obj unsafe.Pointer, a, b int64) {
+	if vTraceOnly(pt) {
+		s.hook(pt, obj, a, b)
+	}
+}
+
 // enabledness of a parked actor's gate
 func (s *vSched) gateEnabled(a *vActor) bool {
 	g := a.gate
@@ -334,6 +350,9 @@ func (s *vSched) Run() {
 	verifHook = s.hook
 	defer func() {
 		s.active = false
+		if s.onStop != nil {
+			s.onStop()
+		}
 		// release anything still parked so goroutines can end (they run free now)
 		s.mu.Lock()
 		for _, a := range s.list {
@@ -386,6 +405,12 @@ func (s *vSched) Run() {
 		if len(cs) == 0 {
 			if !allDone {
 				s.deadlock = true
+			}
+			// remember who is still parked (and where) before Run's epilogue releases everybody
+			for _, a := range parked {
+				if !a.daemon {
+					s.blockedAtEnd = append(s.blockedAtEnd, vBlocked{a.name, a.gate})
+				}
 			}
 			return
 		}
